@@ -47,11 +47,11 @@ ROOT = os.path.dirname(os.path.dirname(os.path.dirname(os.path.abspath(__file__)
 
 def plan(tier: str) -> dict:
     if tier == "thorough":
-        return {"shards": 16, "examples": 60, "max_ops": 14,
+        return {"shards": 16, "examples": 60, "max_ops": 14, "dist": 60,
                 "children": [(0, "plain"), (1, "plain"), (2, "churn"),
                              (3, "plain"), (4, "churn"), (5, "plain"),
                              (6, "plain"), (7, "churn")]}
-    return {"shards": 16, "examples": 10, "max_ops": 10,
+    return {"shards": 16, "examples": 10, "max_ops": 10, "dist": 10,
             "children": [(0, "plain"), (1, "churn"), (2, "plain")]}
 
 
@@ -155,7 +155,31 @@ def run_shard(shard: int, nshards: int, seed: int, tier: str) -> ShardResult:
 
 
 def dist_cases(seed, pl, res) -> list:
-    return []
+    """distributed programs of C08's space (pvf/distgen.py)"""
+    from pvf import distgen
+    out = []
+
+    def body(case):
+        out.append({"dist": case})
+        res.count("distributed_programs")
+
+    hyp_run(distgen.cases(), body, seed + 5, pl["dist"])
+    return out
+
+
+def dist_summary(case) -> dict[str, str]:
+    """(runs in the child) part structure, names and tag numbers of every
+    rank, as canonical JSON text"""
+    from pvf.props import c09
+    s = c09.summarize_case(case["dist"])
+    out = {}
+    if "ranks" in s:
+        for r, rs in enumerate(s["ranks"]):
+            out[f"partition_rank{r}"] = json.dumps(rs, sort_keys=True, indent=0)
+        out["next_tag"] = json.dumps(s["next_tag"])
+    else:
+        out["partition"] = json.dumps(s, sort_keys=True)
+    return out
 
 
 def replay(case) -> Failure | None:
